@@ -116,3 +116,27 @@ WITNESSES = [
  W("c19_tuple_get_oob", "C19", "fail", "utl::get<2> on a 2-tuple is rejected",
    "int f(utl::tuple<int,int>& t){ return utl::get<2>(t); }"),
 ]
+
+# ---------------- C09: the 15-kind cast matrix - the kind tag names what the result is (shape knowledge x buffer kind)
+def _cast_witnesses():
+    shape_pred = {
+        "cs": ("constant shape", "meta::is_constant_index_array_v<S>"),
+        "fs": ("fixed-length run-time shape", "(meta::is_fixed_index_array_v<S> && !meta::is_constant_index_array_v<S> && !meta::is_clipped_index_array_v<S> && meta::len_v<S> == 2)"),
+        "hs": ("bounded-length shape", "(!meta::is_fixed_index_array_v<S> && meta::bounded_size_v<S> == 2)"),
+        "ds": ("dynamic shape", "(!meta::is_fixed_index_array_v<S> && meta::is_fail_v<decltype(meta::bounded_size_v<S>)>)"),
+        "ls": ("clipped shape", "(meta::is_clipped_index_array_v<S> && !meta::is_constant_index_array_v<S>)"),
+    }
+    buf_pred = {
+        "fb": ("fixed buffer of 6", "(meta::len_v<B> == 6)"),
+        "hb": ("bounded buffer of at most 6", "(meta::len_v<B> == 0 && meta::bounded_size_v<B> == 6)"),
+        "db": ("dynamic buffer", "(meta::len_v<B> == 0 && meta::is_fail_v<decltype(meta::bounded_size_v<B>)>)"),
+    }
+    out = []
+    for sk, (sn, sp) in shape_pred.items():
+        for bk, (bn, bp) in buf_pred.items():
+            kind = "ndarray_%s_%s" % (sk, bk)
+            out.append(W("c09_cast_" + sk + "_" + bk, "C09", "pass", "cast(a, kind::%s) of a constant-shape (2,3) array yields an ndarray with %s and %s, element type kept" % (kind, sn, bn),
+                "void f(fixed_a& a){ using R = decltype(nm::cast(a, na::kind::%s)); using S = typename R::shape_type; using B = typename R::buffer_type; "
+                "static_assert(%s); static_assert(%s); static_assert(std::is_same_v<meta::get_element_type_t<R>, float>); }" % (kind, sp, bp)))
+    return out
+WITNESSES += _cast_witnesses()
